@@ -1052,6 +1052,12 @@ def objective_indicator_value(spec, o, P):
         return "MinimumStartTime", (min(tk[n]["start"] for n in sch) if sch else None)
     if k == "GreatestStart":
         return "GreatestStartTime", (max(tk[n]["start"] for n in sch) if sch else None)
+    if k == "FlowtimeSingleResource":
+        lo, hi = o.get("interval") or (0, P["horizon"])
+        hi_name = hi if o.get("interval") else "horizon"
+        inside = [(s, e) for _t, s, e in P["busy"].get(o["resource"], []) if s >= lo and e <= hi]
+        name = f"FlowTimeSingleResource({o['resource']}:{lo}:{hi_name})"
+        return name, ((max(e for _s, e in inside) - min(s for s, _e in inside)) if inside else None)
     return None, None
 
 
